@@ -3,6 +3,7 @@ package main
 import (
 	"fmt"
 	"go/types"
+	"os"
 	"strings"
 
 	"golang.org/x/tools/go/ssa"
@@ -269,6 +270,13 @@ func (e *Exec) checkAssert(label string, c *Term) {
 		case "unsat":
 			rec.Result = "proved"
 		case "sat":
+			if e.W.trace {
+				txt := c.SMT()
+				if len(txt) > 3000 {
+					txt = txt[:3000] + "..."
+				}
+				fmt.Fprintf(os.Stderr, "VIOLATED %q: %s\n", label, txt)
+			}
 			rec.Result = "violated"
 			rec.Cex = e.writeCex(label, e.buildCex(label, neg))
 		default:
